@@ -369,7 +369,7 @@ func c16DotDot(dotu bool) Scenario {
 			if len(cur) > 0 {
 				lists = append(lists, append([]string{}, cur...))
 			}
-			if len(cur) == 4 {
+			if len(cur) == 4+c16Deeper {
 				return
 			}
 			for _, a := range alpha {
@@ -392,6 +392,11 @@ func c16DotDot(dotu bool) Scenario {
 			}
 			cl.Rpc(tattach(1, 0, wire.NOFID, un, uint32(os.Geteuid()), dotu))
 			for _, el := range lists {
+				if rc.Expired() {
+					res.Exhaustive = false
+					res.CapHit = "internal deadline"
+					return
+				}
 				// the host's resolution, element by element (lstat of the last element: a link stays a link)
 				var fis []os.FileInfo
 				path := root
@@ -457,15 +462,22 @@ func c16DotDot(dotu bool) Scenario {
 	}}
 }
 
+// c16Deeper: additional elements of the enumerated element lists in the thorough tier
+var c16Deeper int
+
 func c16Scenarios(tier string) []Scenario {
 	var out []Scenario
+	c16Deeper = 0
+	if tier == "thorough" {
+		c16Deeper = 1
+	}
 	out = append(out, c16DotDot(false), c16DotDot(true))
 	out = append(out, c16Unprivileged(false), c16Unprivileged(true))
 	for t := 0; t < 4; t++ {
 		for _, dotu := range []bool{false, true} {
 			k := 1
 			if tier == "thorough" {
-				k = 2
+				k = 4
 			}
 			out = append(out, c16Scenario(t, dotu, k, tier == "thorough" || t == 0))
 		}
@@ -476,7 +488,7 @@ func c16Scenarios(tier string) []Scenario {
 func init() {
 	register(&Property{ID: "C16", Level: "exploration",
 		Technique: "bounded-exhaustive enumeration of walks and stats over constructed trees against the real Ufs, compared with os.Lstat",
-		Rule:      "4 constructed trees (files, directories, symlinks to file/dir/dangling, hard links, names with spaces, dots, non-ASCII and non-UTF-8 bytes, 255-byte names, a 40-level chain, modes 0000-0777, a >4 GiB sparse file); for every node and k in 0..1 (thorough 2) missing trailing elements: the walk from the root (and from every ancestor) as one Twalk (<= 16 elements) to a new fid and in place, Tstat of both fids afterwards and again once the new fid is open, stat of every node in both dialects, every element list of length <= 4 with '..' behind symbolic links to directories compared with the host's own resolution, Clnt.FStat of every path and of a missing child; every element list of length <= 3 over a tree with unsearchable and unlistable directories, served by an ordinary user, compared with that user's lstat. non-trivial = walks/stats compared",
+		Rule:      "4 constructed trees (files, directories, symlinks to file/dir/dangling, hard links, names with spaces, dots, non-ASCII and non-UTF-8 bytes, 255-byte names, a 40-level chain, modes 0000-0777, a >4 GiB sparse file); for every node and k in 0..1 (thorough 4) missing trailing elements: the walk from the root (and from every ancestor) as one Twalk (<= 16 elements) to a new fid and in place, Tstat of both fids afterwards and again once the new fid is open, stat of every node in both dialects, every element list of length <= 4 (thorough 5) with '..' behind symbolic links to directories compared with the host's own resolution, Clnt.FStat of every path and of a missing child; every element list of length <= 3 (thorough 4) over a tree with unsearchable and unlistable directories, served by an ordinary user, compared with that user's lstat. non-trivial = walks/stats compared",
 		Assumptions: []string{"the host file system and os.Lstat are the reference; one scenario serves a tree with unsearchable directories with the effective ids of an ordinary user, the others run as the sandbox user", "random trees of the quantifier are sampling and not claimed"},
 		Scenarios:   c16Scenarios, QuickS: 100, ThoroughS: 600})
 }
@@ -525,7 +537,7 @@ func c16Unprivileged(dotu bool) Scenario {
 			if len(cur) > 0 {
 				lists = append(lists, append([]string{}, cur...))
 			}
-			if len(cur) == 3 {
+			if len(cur) == 3+c16Deeper {
 				return
 			}
 			for _, a := range alpha {
@@ -550,6 +562,11 @@ func c16Unprivileged(dotu bool) Scenario {
 			}
 			rootFi, _ := os.Lstat(root)
 			for _, names := range lists {
+				if rc.Expired() {
+					res.Exhaustive = false
+					res.CapHit = "internal deadline"
+					return
+				}
 				var fis []os.FileInfo
 				for i := range names {
 					fi, err := os.Lstat(filepath.Join(root, filepath.Join(names[:i+1]...)))
